@@ -2,9 +2,13 @@ package props
 
 import (
 	"bytes"
+	"encoding/xml"
 	"fmt"
 	"reflect"
+	"runtime"
 	"strings"
+	"sync"
+	"time"
 
 	"github.com/paulmach/osm"
 
@@ -334,15 +338,30 @@ func c04PartsRun(res *fw.Result, kind string, v any, detail map[string]any) {
 	}
 }
 
-// c04Run runs the round trip and the two readers for one value.
+// c04Run marshals v (by pointer or by value) and runs the round trip and the two readers.
 func c04Run(res *fw.Result, kindName string, v any, indent, byValue bool, detail map[string]any) {
 	kind := kindName
 	if byValue {
 		kind += ".byvalue" // label used in keys and messages
 	}
 	wantDump := eq.Dump(xmlNorm(v))
+	arg := v
+	if byValue {
+		arg = c04ByValue(v)
+	}
+	text, err, pan := xmlMarshal(arg, indent)
+	det := map[string]any{"indent": indent, "by_value": byValue}
+	for k, x := range detail {
+		det[k] = x
+	}
+	c04Verify(res, kindName, kind, v, wantDump, text, err, pan, det)
+}
+
+// c04Verify judges the outcome (text, err, pan) of marshalling v. kind is the label used in
+// keys (kindName plus the marshalling form), wantDump the dump of v taken before marshalling.
+func c04Verify(res *fw.Result, kindName, kind string, v any, wantDump string, text []byte, err error, pan string, detail map[string]any) {
 	det := func(text []byte, extra map[string]any) map[string]any {
-		m := map[string]any{"kind": kind, "value": xmlTrim(eq.Dump(v), 5000), "indent": indent, "by_value": byValue}
+		m := map[string]any{"kind": kind, "value": xmlTrim(eq.Dump(v), 5000)}
 		if text != nil {
 			m["xml"] = xmlTrim(string(text), 6000)
 		}
@@ -354,11 +373,6 @@ func c04Run(res *fw.Result, kindName string, v any, indent, byValue bool, detail
 		}
 		return m
 	}
-	arg := v
-	if byValue {
-		arg = c04ByValue(v)
-	}
-	text, err, pan := xmlMarshal(arg, indent)
 	res.Event(1)
 	switch {
 	case pan != "":
@@ -493,6 +507,10 @@ func c04Exec(c fw.Case) *fw.Result {
 		c04Observe(res, kind, v, g)
 		res.Eval("feature|" + mode + "|" + feature)
 		res.Sample = map[string]any{"kind": kind, "feature": feature, "mode": mode, "value": xmlTrim(eq.Dump(v), 1200)}
+	case "concurrent":
+		c04Concurrent(res, c)
+	case "probe":
+		c04Probe(res, c)
 	case "random":
 		n := int(c.Int("values"))
 		for i := 0; i < n; i++ {
@@ -518,6 +536,160 @@ func c04Exec(c fw.Case) *fw.Result {
 		}
 	}
 	return res
+}
+
+// c04YieldWriter is the io.Writer below the encoder in the concurrent cases: the library (through
+// encoding/xml's buffered printer) calls it whenever 4 KiB of output are ready — with a long
+// root attribute that is in the middle of the start tag — and it yields the processor there.
+// Pure schedule perturbation; nothing is measured.
+type c04YieldWriter struct {
+	buf bytes.Buffer
+	n   int
+}
+
+func (w *c04YieldWriter) Write(p []byte) (int, error) {
+	w.n++
+	runtime.Gosched()
+	if w.n%3 == 0 {
+		time.Sleep(20 * time.Microsecond)
+	}
+	return w.buf.Write(p)
+}
+
+// c04Concurrent: many goroutines marshal different containers (distinct root attributes and
+// contents) at the same time; every text must still be the text of *its* value. Marshalling is
+// a function of its argument, so concurrent callers must not influence each other (shared
+// scratch state in the marshaller is what this looks for). Run plain and under the race
+// detector.
+func c04Concurrent(res *fw.Result, c fw.Case) {
+	type job struct {
+		kind string
+		v    any
+		want string
+	}
+	n := int(c.Int("values"))
+	var jobs []job
+	for i := 0; i < n; i++ {
+		seed := gen.Sub(c.Seed, "c04cvalue", i)
+		r := gen.New(seed, "c04concurrent")
+		g := xmlw.NewG(r, 0.6)
+		g.Nanos = true
+		g.MaxList = 2
+		kind := []string{"osm", "change", "osm", "change", "diff"}[i%5]
+		v := g.Value(kind)
+		// five distinct root attributes per value; one of them (or none) longer than the
+		// encoder's output buffer, so that the writer is entered in the middle of the start tag
+		hdr := []string{fmt.Sprintf("0.6-%d", i), fmt.Sprintf("generator-%d", i), fmt.Sprintf("copyright-%d", i), fmt.Sprintf("attribution-%d", i), fmt.Sprintf("license-%d", i)}
+		for k := range hdr {
+			if !r.Chance(0.85) {
+				hdr[k] = "" // absent attributes make the attribute lists differ in length too
+			}
+		}
+		if long := i % 6; long < 5 && hdr[long] != "" {
+			hdr[long] += strings.Repeat(string(rune('a'+i%26)), 4200+17*i)
+		}
+		switch x := v.(type) {
+		case *osm.OSM:
+			x.Version, x.Generator, x.Copyright, x.Attribution, x.License = hdr[0], hdr[1], hdr[2], hdr[3], hdr[4]
+		case *osm.Change:
+			x.Version, x.Generator, x.Copyright, x.Attribution, x.License = hdr[0], hdr[1], hdr[2], hdr[3], hdr[4]
+		}
+		jobs = append(jobs, job{kind, v, eq.Dump(xmlNorm(v))})
+	}
+	const goroutines = 24
+	var wg sync.WaitGroup
+	start := make(chan struct{})
+	for gi := 0; gi < goroutines; gi++ {
+		wg.Add(1)
+		go func(gi int) {
+			defer wg.Done()
+			<-start
+			for rep := 0; rep < 2; rep++ {
+				for i := range jobs {
+					j := jobs[(i+gi*7)%len(jobs)]
+					var text []byte
+					var err error
+					var pan string
+					if (rep+gi)%2 == 0 {
+						w := &c04YieldWriter{}
+						pan = xmlGuard(func() { err = xml.NewEncoder(w).Encode(j.v) })
+						text = w.buf.Bytes()
+					} else {
+						text, err, pan = xmlMarshal(j.v, false)
+					}
+					c04Verify(res, j.kind, j.kind+".concurrent", j.v, j.want, text, err, pan, map[string]any{"goroutine": gi, "goroutines": goroutines})
+				}
+			}
+		}(gi)
+	}
+	close(start)
+	wg.Wait()
+	res.Add("concurrent_marshals", int64(goroutines*2*len(jobs)))
+	res.Eval("concurrent|" + c.Variant)
+	res.Sample = map[string]any{"goroutines": goroutines, "values": len(jobs), "variant": c.Variant}
+}
+
+// c04Probe records, without asserting, what happens to container parts the documented shape
+// of a diff action does not provide for: a *create* action whose OSM holds more than the one
+// new element (further elements, top-level bounds, changesets, notes, users) and header
+// attributes on the OSM of old/new. See notes/C04.md ("create containers").
+func c04Probe(res *fw.Result, c fw.Case) {
+	g := &xmlw.G{R: gen.New(c.Seed, "c04probe"), Simple: true, MaxList: 1, P: 1}
+	full := func() *osm.OSM {
+		return &osm.OSM{Bounds: &osm.Bounds{MinLat: 1, MaxLat: 2, MinLon: 3, MaxLon: 4}, Nodes: osm.Nodes{g.Node(), g.Node()}, Ways: osm.Ways{g.Way()},
+			Changesets: osm.Changesets{g.Changeset()}, Notes: osm.Notes{g.Note()}, Users: osm.Users{g.User()}}
+	}
+	old, nw := full(), full()
+	old.Version, nw.Generator = "0.6", "probe"
+	d := &osm.Diff{Actions: osm.Actions{{Type: osm.ActionCreate, OSM: full()}, {Type: osm.ActionModify, Old: old, New: nw}}}
+	text, err, pan := xmlMarshal(d, false)
+	back := &osm.Diff{}
+	var uerr error
+	var upan string
+	if err == nil && pan == "" {
+		uerr, upan = xmlUnmarshal(text, back)
+	}
+	res.Event(2)
+	if pan != "" || upan != "" {
+		res.Violate("C04/probe/diff/panic", "marshalling or unmarshalling a diff whose actions hold general containers panicked", map[string]any{"panic": xmlTrim(pan+upan, 3000), "xml": xmlTrim(string(text), 3000)})
+	}
+	obs := map[string]any{"marshal_error": fmt.Sprint(err), "unmarshal_error": fmt.Sprint(uerr)}
+	if err == nil && uerr == nil && len(back.Actions) == 2 {
+		lost := func(name string, want, got *osm.OSM) {
+			if got == nil {
+				got = &osm.OSM{}
+			}
+			count := func(what string, w, g int) {
+				if w != g {
+					res.Add("probe_"+name+"_"+what+"_lost", 1)
+					obs[name+"."+what] = fmt.Sprintf("%d written, %d read back", w, g)
+				} else {
+					res.Add("probe_"+name+"_"+what+"_kept", 1)
+				}
+			}
+			b := func(o *osm.OSM) int {
+				if o.Bounds != nil {
+					return 1
+				}
+				return 0
+			}
+			count("bounds", b(want), b(got))
+			count("elements", len(want.Nodes)+len(want.Ways)+len(want.Relations), len(got.Nodes)+len(got.Ways)+len(got.Relations))
+			count("changesets", len(want.Changesets), len(got.Changesets))
+			count("notes", len(want.Notes), len(got.Notes))
+			count("users", len(want.Users), len(got.Users))
+			h := func(o *osm.OSM) int { return len(o.Version) + len(o.Generator) }
+			if h(want) > 0 {
+				count("header_attributes", 1, min(h(got), 1))
+			}
+		}
+		lost("create_container", d.Actions[0].OSM, back.Actions[0].OSM)
+		lost("old_container", d.Actions[1].Old, back.Actions[1].Old)
+		lost("new_container", d.Actions[1].New, back.Actions[1].New)
+	}
+	res.Eval("")
+	obs["xml"] = xmlTrim(string(text), 1500)
+	res.Sample = obs
 }
 
 // c04Shape is the feature signature of a random value: its kind and, per field of the top
@@ -599,6 +771,13 @@ func c04Cases(tier string, seed uint64) []fw.Case {
 			}
 		}
 	}
+	for i, v := range []string{"plain", "race", "plain", "race"} {
+		if tier != "thorough" && i >= 2 {
+			break
+		}
+		cs = append(cs, fw.Case{Kind: "concurrent", Variant: v, Seed: gen.Sub(seed, "c04conc", i), P: map[string]int64{"values": 24}})
+	}
+	cs = append(cs, fw.Case{Kind: "probe", Seed: gen.Sub(seed, "c04probe", 0)})
 	n := 45
 	if tier == "thorough" {
 		n = 20000
@@ -616,6 +795,8 @@ func init() {
 		Rule: "values built by the harness' generator: (a) systematic — for each of bounds/node/way/relation/changeset/note/user/OSM/Change/Diff and each of its optional parts (incl. way-node version/changeset/lat/lon, member version/changeset/lat/lon/orientation/nested nodes, updates, committed, element bounds, top-level bounds of OSM and of each osmChange block, create/modify/delete diff actions) one value with only that part populated and one with all but it; " +
 			"(b) PRNG values of all ten kinds with each optional part populated with probability 0.2/0.5/0.8/1, Unicode strings incl. XML specials, tab/LF/CR and boundary code points, nanosecond times (whole seconds for note dates), 7-decimal and arbitrary finite float coordinates, negative/large ids; xml.Marshal and xml.MarshalIndent. " +
 			"Every value is marshalled twice — by pointer (xml.Marshal(&v)) and by value (xml.Marshal(v), nothing held by value is addressable) — under the same three oracles, and the parts the types hold by value or that have their own marshalling method (Tag, WayNode, Update, Member, Action per type, Date, NoteComment, ChangesetComment, ChangesetDiscussion) are additionally marshalled on their own, by pointer and by value (round trip + vocabulary below the document element). " +
+			"Diff values: create actions hold one element; the Old and New containers of modify/delete actions are general osm.OSM containers (old/new element plus optional top-level bounds, further elements, changesets, notes, users — features diff.actions.container.*). " +
+			"(c) concurrent: 24 goroutines marshal 24 different OSM/Change/Diff values (distinct root attributes, one of them longer than the encoder's 4 KiB buffer so that the yielding io.Writer below the encoder is entered in the middle of the start tag) at the same time, plain and under the race detector; every text must be the text of its own value. " +
 			"A signature is (kind, populated/unpopulated vector of the top-level fields) for random values and (mode, feature) for systematic ones; distinct_nontrivial counts distinct signatures.",
 		Assumptions: []string{
 			"equality is eq.Dump equality: times by instant, nil ≡ empty slices, XMLName ignored; a changeset discussion without comments ≡ nil (the marshaller omits it by design); an osmChange block without content ≡ nil",
@@ -625,10 +806,15 @@ func init() {
 			"the vocabulary table includes the annotation names the library documents on its structs (committed, update, index, reverse, orientation, nd/member version/changeset/lat/lon)",
 			"the document-element name of a Bounds value marshalled on its own (encoding/xml's default, the Go type name) is observed but not asserted: both readers accept it and the round trip holds; bounds inside OSM / osmChange blocks / ways / relations are asserted",
 			"parts marshalled on their own get encoding/xml's default document-element name (the Go type name); it is not judged, everything below it is; a by-value violation is reported only when the by-pointer form of the same input did not already report the same class",
+			"a create action whose OSM holds more than its one new element (further elements, bounds, changesets, notes, users) and header attributes on an action's OSM/Old/New are outside the documented action shape; one non-asserting probe case records what the library does with them (probe_* counters; on the current tree: all of these are lost, see notes/C04.md)",
+			"concurrent cases: marshalling is taken to be a function of its argument, so independent values marshalled at the same time must not influence each other and a data race with a library frame is a violation; the yields in the io.Writer only perturb the schedule",
 			"the scanner comparison matches delivered objects to the value through the positions an independent tokenizer finds in the text; it is skipped for a text that already failed the vocabulary check",
 		},
 		Cases:   c04Cases,
 		Exec:    c04Exec,
 		Workers: 12,
+		// marshalling is a function of its argument: a data race with a library frame while
+		// independent values are marshalled concurrently refutes that
+		RaceIsViolation: true,
 	})
 }
